@@ -67,6 +67,7 @@ func (in *Interp) resetPath(prefix []int) {
 	in.depth = 0
 	in.curFrame = nil
 	in.Effects = nil
+	in.SharedWrites = nil
 	in.lastClock = nil
 	in.facts = in.facts[:0]
 	in.factMap = map[string]bool{}
@@ -460,6 +461,27 @@ func registerHarnessIntrinsics(in *Interp, pkgPath string) {
 		x, y := Zext(a[0].(*Term), 65), Zext(a[1].(*Term), 65)
 		s := BV2(OpBVAdd, x, y)
 		return Eq(Extract(s, 64, 64), BVConst(0, 1))
+	})
+	reg("verifSharedState", func(in *Interp, fr *Frame, a []V) V {
+		n := len(in.SharedWrites)
+		for _, e := range in.Effects {
+			if strings.HasPrefix(e, "global:") {
+				n++
+			}
+		}
+		if n > 0 && in.H != nil && len(in.H.Samples) < 12 {
+			msg := "shared state: "
+			for _, w := range in.SharedWrites {
+				msg += w + "; "
+			}
+			for _, e := range in.Effects {
+				if strings.HasPrefix(e, "global:") {
+					msg += e + "; "
+				}
+			}
+			in.H.Samples = append(in.H.Samples, msg)
+		}
+		return BVConst(uint64(n), 64)
 	})
 	reg("verifEffects", func(in *Interp, fr *Frame, a []V) V {
 		return BVConst(uint64(len(in.Effects)), 64)
